@@ -137,6 +137,27 @@ theorem fnmatch_is_textbook_glob (name pat : Str) :
     fnmatch name pat = true ↔ Matches (translate (pat.length + 1) pat) name :=
   globMatch_iff _ _
 
+/-- `*` takes any, possibly empty, prefix of what is left of the name … -/
+theorem star_takes_any_prefix (ts : List Tok) (s : Str) :
+    Matches (.star :: ts) s ↔ ∃ s1 s2, s = s1 ++ s2 ∧ Matches ts s2 := matches_star_iff ts s
+
+/-- … and every other token exactly one character that it matches. -/
+theorem other_token_takes_one (t : Tok) (ht : t ≠ .star) (ts : List Tok) (s : Str) :
+    Matches (t :: ts) s ↔ ∃ c s', s = c :: s' ∧ t.matches c = true ∧ Matches ts s' := matches_one_iff t ht ts s
+
+/-- Outside bracket expressions `fnmatch.translate` reads the pattern character by character (`*` → star,
+`?` → any one character, anything else → itself); compressing runs of `*` changes nothing. -/
+theorem translate_outside_brackets (pat : Str) (h : 91 ∉ pat) (name : Str) :
+    fnmatch name pat = true ↔ Matches (plainToks pat) name :=
+  (fnmatch_is_textbook_glob name pat).trans (translate_plain pat h (pat.length + 1) (Nat.lt_succ_self _) name)
+
+/-- `[seq]` / `[!seq]` without `-` are the listed characters / all others; a class token matches by membership. -/
+theorem simple_classes (seq : Str) (h45 : 45 ∉ seq) :
+    (seq.head? ≠ some 33 → classOf seq = .cls false seq []) ∧ classOf (33 :: seq) = .cls true seq [] ∧
+    ∀ neg singles ranges x, (Tok.cls neg singles ranges).matches x = true ↔
+      ((x ∈ singles ∨ ∃ r ∈ ranges, r.1 ≤ x ∧ x ≤ r.2) ↔ neg = false) :=
+  ⟨classOf_plain seq h45, classOf_negated seq h45, cls_matches⟩
+
 /-! ### non-vacuity -/
 
 /-- "1/*/2-5" -/
@@ -153,6 +174,8 @@ example : parseFilter (PatternP.render [[.between 5 2, .upTo 10, .from_ 10]]) =
 example : fnmatch [105, 45, 116, 101, 115, 116, 49] [105, 45, 116, 63, 115, 116, 42] = true := by
   simp [fnmatch, translate, globMatch, Tok.matches]
 example : translate 8 [91, 33, 97, 45, 99, 93] = [.cls true [97, 99] [(97, 99)]] := by decide
+example : classOf [99, 45, 97] = .cls false [] [] := by decide            -- "[c-a]" never matches
+example : classOf [122, 45, 97, 33, 98] = .cls true [98] [] := by decide  -- "[z-a!b]" is read as "[!b]" (CPython quirk)
 example : parseFilter [49, 45, 50, 45, 51] = .error .value := by decide             -- "1-2-3"
 example : parseFilter [49, 47, 50, 47, 51, 47, 52] = .error .conversion := by decide  -- "1/2/3/4"
 
